@@ -165,6 +165,17 @@ Theorem C06_float_inverse_refuted :
 Proof. exact float_inverse_refuted. Qed.
 Print Assumptions C06_float_inverse_refuted.
 
+(* ... and corner choice does not guard the value: with NO neighbour in the lower-right quadrant the parallelogram case
+   (three corners) still answers, and the fourth weight multiplies the datum of the first neighbour: 175 = (100+200+300+100)/4
+   (known finding; the theorems above therefore carry "found_corners = Some ..." as a hypothesis) *)
+Theorem C06_value_with_missing_corner_refuted :
+  found_corners F64 0%float 0%float miss_l = None /\
+  nb_i (corner F64 LR 0%float 0%float miss_l) = 10%Z /\
+  fractional_distances F64 (-1, 1)%float (1, 1)%float (-1, -1)%float (PrimFloat.nan, PrimFloat.nan) 0%float 0%float = (0.5, 0.5)%float /\
+  pixel F64 miss_data miss_l 0%float 0%float = 175%float.
+Proof. exact value_with_missing_corner_f64. Qed.
+Print Assumptions C06_value_with_missing_corner_refuted.
+
 (* ---- tie to /repo: the kernels of the model are the definitions regenerated from the current source, for every
    arithmetic *)
 Theorem C06_gen_kernels_are_model : forall (T : Type) (OP : ops T),
